@@ -193,6 +193,7 @@ func (p *populator) fill(v reflect.Value, depth int) {
 			return
 		}
 		mp := reflect.MakeMap(t)
+		var prev reflect.Value
 		for i := 0; i < n; i++ {
 			k := reflect.New(t.Key()).Elem()
 			p.fill(k, depth-1)
@@ -200,7 +201,14 @@ func (p *populator) fill(v reflect.Value, depth int) {
 				k.SetString(fmt.Sprintf("k%d", i))
 			}
 			e := reflect.New(t.Elem()).Elem()
-			p.fill(e, depth-1)
+			if i > 0 && t.Elem().Kind() == reflect.Ptr && prev.IsValid() && !prev.IsNil() && p.next()%3 == 0 {
+				// the same pointer registered under two keys (as schema providers do for
+				// dependent bodies reachable through several keys)
+				e.Set(prev)
+			} else {
+				p.fill(e, depth-1)
+			}
+			prev = e
 			mp.SetMapIndex(k, e)
 		}
 		v.Set(mp)
